@@ -29,8 +29,11 @@ JoinText(j) == CASE j = "|" -> <<"|">> [] j = "->" -> <<"-", ">">> [] j = ";" ->
                  [] j = "||" -> <<"|", "|">> [] j = "=>" -> <<"=", ">">> [] j = "?" -> <<"SP", "?">> [] j = "LF" -> <<"LF">>
 
 \* argument forms of a command segment (inner = the command inside a block / sub-shell)
-ArgFormNames == {"none", "plain", "quoted", "block", "subshell", "arraysub", "var", "redirect", "append", "pipefile", "escaped"}
-NeedsInner(f) == f \in {"block", "subshell", "arraysub"}
+ArgFormNames == {"none", "plain", "quoted", "block", "subshell", "arraysub", "var", "redirect", "append", "pipefile", "escaped",
+                 "parensub", "bqsub", "dqsub", "nestparensub"}
+\* a sub-shell is evaluated inside double quotes and inside ( ) / %( ) strings as well
+SubForms == {"subshell", "arraysub", "parensub", "bqsub", "dqsub", "nestparensub"}
+NeedsInner(f) == f \in {"block"} \cup SubForms
 ArgText(f, inner) ==
     CASE f = "none"     -> <<>>
       [] f = "plain"    -> <<"x">>
@@ -39,6 +42,10 @@ ArgText(f, inner) ==
       [] f = "block"    -> <<"{", "SP">> \o inner \o <<"SP", "}">>
       [] f = "subshell" -> <<"$", "{">> \o inner \o <<"}">>
       [] f = "arraysub" -> <<"@", "{">> \o inner \o <<"}">>
+      [] f = "parensub" -> <<"(", "$", "{">> \o inner \o <<"}", ")">>
+      [] f = "bqsub"    -> <<"%", "(", "a", "SP", "$", "{">> \o inner \o <<"}", "SP", "b", ")">>
+      [] f = "dqsub"    -> <<"DQ", "a", "SP", "$", "{">> \o inner \o <<"}", "DQ">>
+      [] f = "nestparensub" -> <<"(", "a", "SP", "(", "b", "SP", "$", "{">> \o inner \o <<"}", ")", ")">>
       [] f = "var"      -> <<"$", "v">>
       [] f = "redirect" -> <<"x", "SP", ">", "SP", "f">>           \* not a redirection in murex: `>` is an ordinary word here
       [] f = "append"   -> <<"x", "SP", ">", ">", "SP", "f">>      \* append stdout to file f
@@ -81,7 +88,7 @@ RunCmds(l) == {l.segs[k].cmd : k \in {j \in 1..(N(l) - 1) : l.segs[j].k = "cmd"}
               \cup {l.segs[k].inner : k \in {j \in 1..(N(l) - 1) : l.segs[j].k = "cmd" /\ NeedsInner(l.segs[j].form)}}
 HasAssign(l) == \E k \in 1..(N(l) - 1) : l.segs[k].k = "assign"
 HasFileRedirect(l) == \E k \in 1..(N(l) - 1) : l.segs[k].form \in {"append", "pipefile"}
-HasSubShell(l) == \E k \in 1..(N(l) - 1) : l.segs[k].form \in {"subshell", "arraysub"}
+HasSubShell(l) == \E k \in 1..(N(l) - 1) : l.segs[k].form \in SubForms
 Reasons(l) == (IF RunCmds(l) \cap UnsafeCmds # {} THEN {"unsafe-command"} ELSE {})
               \cup (IF HasAssign(l) THEN {"assignment"} ELSE {})
               \cup (IF HasFileRedirect(l) THEN {"file-redirect"} ELSE {})
